@@ -435,6 +435,123 @@ let sem_outline_gen (e : Sexp.t) : Sexp.t =
   | _ -> bad "sem_outline: %s" (to_string e)
 
 
+(* ---------- sem_c13_induction ---------- *)
+(* Judges what the IMPLEMENTATION emitted for every lemma of an accepted outline, whatever the model
+   says about the outline: `(lemma (conjectures..) (consequences..))`.  The property: whoever proves
+   the conjectures may use the consequences as axioms afterwards, so in every interpretation in which
+   all conjectures are true all consequences must be true.  For a basic lemma both lists carry the
+   same formula (nothing to do).  For an inductive lemma the conjectures are base and step and the
+   consequence is the lemma `forall N Xs (N >= n .. -> F)`.
+   Evaluation: all three CLOSED formulas, exactly as emitted, on ONE finite window whose integers are
+   the contiguous interval [n + lo, n + hi] (lo <= 0 < hi; n = the numeral of the first guard of the
+   consequence's antecedent, 0 if there is none); every quantifier - outer and inner, every sort -
+   ranges over that window, terms are evaluated exactly (M.Eval.ceval), predicates are interpreted by
+   finite sets of ground atoms (structured ones: "all integer arguments = / <= / >= k" and the
+   complements, per predicate mixes of those, random subsets), placeholders by values of the window.
+   No false alarm on a correct inductive lemma `N >= n -> F`: base_W gives F_W(n, xs) for all xs of the
+   window; step_W gives F_W(k, xs) -> F_W(k+1, xs) for every k of the window, k >= n (evaluating
+   F[N := N+1] at N = k IS evaluating F at N = k+1: terms are exact, the substitution captures
+   nothing); so F_W(k, xs) for all k in [n, n + hi] by induction INSIDE the window, which is consequence_W
+   (below n the antecedent is false).  The step at the upper edge (k = n + hi, F at n + hi + 1, an
+   integer outside the window) is an extra premise only.  Hence every `(cex ..)` is a real defect of
+   the emitted formulas w.r.t. window semantics, and the witness is printed. *)
+let induction_oracle (seed : int) (conjs : formula list) (conss : formula list) : Sexp.t option * int =
+  let fs = conjs @ conss in
+  let n = match conss with
+    | FQ (QForall, _, FBin (CImp, FAtomic (ACmp (_, g :: _)), _)) :: _ ->
+      (match g.gterm_of with GInt (INum z) -> Conv.z_of_coqz z | _ -> Z.zero)
+    | _ -> Z.zero in
+  let syms = Semlib.take 2 (uniq (List.concat_map symbols fs)) in
+  let syms = if syms = [] then [ Semlib.cl "a" ] else syms in
+  let preds = uniq (List.concat_map predicates fs) in
+  let fcs = uniq (List.concat_map function_constants fs) in
+  let st = Semlib.rng_of seed in
+  let window lo hi =
+    { w_ints = List.init (hi - lo + 1) (fun i -> Conv.coqz_of_z (Z.add n (Z.of_int (lo + i)))); w_syms = syms } in
+  let rec cost w = function
+    | FAtomic _ -> 1
+    | FNot f -> cost w f
+    | FBin (_, l, r) -> cost w l + cost w r
+    | FQ (_, bs, f) -> List.fold_left (fun a (b : var) -> a * max 1 (List.length (w_sort w b.vsort))) 1 bs * cost w f in
+  let budget = 120_000 in
+  let rec choose = function
+    | [] -> None
+    | (lo, hi) :: rest ->
+      let w = window lo hi in
+      let c = List.fold_left (fun a f -> a + cost w f) 0 fs in
+      if c * 12 <= budget then Some (w, hi, max 12 (min 260 (budget / max 1 c))) else choose rest in
+  match choose [ (-2, 6); (-1, 4); (0, 3); (0, 2) ] with
+  | None -> (None, 0)
+  | Some (w, hi, n_interps) ->
+    (* ground atoms: arguments from the window and the integer just above it (F at the upper edge + 1) *)
+    let above = VNum (Conv.coqz_of_z (Z.add n (Z.of_int (hi + 1)))) in
+    let vals = w_general w @ [ above ] in
+    let atoms_of (q : pred) =
+      let k = Conv.int_of_nat q.parity in
+      if k > 2 then [] else List.map (fun t -> (q.psym, t)) (Semlib.tuples vals k) in
+    let per_pred = List.map (fun q -> (q, atoms_of q)) preds in
+    let ints_of args = List.filter_map (function VNum z -> Some (Conv.z_of_coqz z) | _ -> None) args in
+    let shapes =
+      List.concat_map (fun z ->
+          let z = Conv.z_of_coqz z in
+          [ (fun a -> List.for_all (fun x -> Z.equal x z) (ints_of a)); (fun a -> not (List.for_all (fun x -> Z.equal x z) (ints_of a)));
+            (fun a -> List.for_all (fun x -> Z.leq x z) (ints_of a)); (fun a -> not (List.for_all (fun x -> Z.leq x z) (ints_of a)));
+            (fun a -> List.for_all (fun x -> Z.geq x z) (ints_of a) && ints_of a <> []); (fun a -> List.exists (fun x -> Z.lt x z) (ints_of a)) ])
+        (List.stable_sort (fun a b -> Z.compare (Z.abs (Z.sub (Conv.z_of_coqz a) n)) (Z.abs (Z.sub (Conv.z_of_coqz b) n))) w.w_ints) in
+    let shapes = Array.of_list ((fun _ -> false) :: (fun _ -> true) :: shapes) in
+    let uniform k = List.concat_map (fun (_, atoms) -> List.filter (fun (_, a) -> shapes.(k) a) atoms) per_pred in
+    let mixed () = List.concat_map (fun (_, atoms) ->
+        let k = Random.State.int st (Array.length shapes) in List.filter (fun (_, a) -> shapes.(k) a) atoms) per_pred in
+    let all_atoms = List.concat_map snd per_pred in
+    let interps =
+      if preds = [] then [ [] ]
+      else if List.length all_atoms <= 7 then Semlib.subsets all_atoms
+      else begin
+        (* empty, full, then the shapes around the base point first (= n, <= n, >= n, then n+1, n-1, ..) *)
+        let ns = Array.length shapes in
+        let order = List.init ns (fun k -> k) in
+        let structured = List.map uniform order in
+        let rest = List.init (max 0 (n_interps - ns)) (fun i -> if i mod 3 = 2 then Semlib.random_subset st all_atoms else mixed ()) in
+        Semlib.take n_interps (structured @ rest)
+      end in
+    let fis = if fcs = [] then [ [] ] else [ []; Semlib.random_ffint st w fcs ] in
+    let result = ref None and count = ref 0 in
+    List.iter (fun fi ->
+        List.iter (fun i ->
+            if !result = None then begin
+              incr count;
+              let tr f = ceval w fi i [] f in
+              if List.exists (fun c -> not (tr c)) conss && List.for_all tr conjs then
+                result := Some (L [ A "cex";
+                                    S "in this interpretation every conjecture emitted for the lemma (base case, inductive step) is true and the consequence made available as an axiom is false (all quantifiers over the window)";
+                                    L (A "conjectures" :: List.map of_formula conjs); L (A "consequences" :: List.map of_formula conss);
+                                    L [ A "window"; Semlib.of_window w ]; L [ A "interpretation"; Semlib.of_fpint i ];
+                                    L [ A "placeholders"; Semlib.of_ffint fi ] ])
+            end) interps) fis;
+    (!result, !count)
+
+let sem_c13_induction (e : Sexp.t) : Sexp.t =
+  match e with
+  | L [ L [ _; _; _ ]; L [ A "ok"; L [ A "outline"; L fl; L bl; _; _ ]; _ ] ] ->
+    let lemma = function
+      | L [ A "lemma"; L cj; L cs ] ->
+        (List.map (fun x -> (pformula x).pf_formula) cj, List.map (fun x -> (pformula x).pf_formula) cs)
+      | x -> bad "sem_c13_induction: lemma: %s" (to_string x) in
+    let seed = Semlib.hash_sexp e in
+    let total = ref 0 in
+    let rec go = function
+      | [] -> ok !total
+      | x :: rest ->
+        let (conjs, conss) = lemma x in
+        if conjs = conss then go rest
+        else
+          (match induction_oracle seed conjs conss with
+           | (Some cex, _) -> cex
+           | (None, k) -> total := !total + k; go rest) in
+    go (fl @ bl)
+  | L [ _; _ ] -> ok 0
+  | _ -> bad "sem_c13_induction: %s" (to_string e)
+
 (* ---------- sem_c13_order ---------- *)
 (* On an accepted external task with a proof outline: the outline problem <dir>_outline_i_j must see
    exactly the stable premises, the premises of the direction, the D definitions of the direction and
@@ -795,6 +912,7 @@ let () =
   Ops.register "sem_outline" sem_outline_gen;
   Ops.register "sem_outline_all" sem_outline_gen;
   Ops.register "sem_c11" sem_c11;
+  Ops.register "sem_c13_induction" sem_c13_induction;
   Ops.register "sem_c13_order" sem_c13_order;
   Ops.register "sem_c13_fresh" sem_c13_fresh;
   Ops.register "sem_c19_external" sem_c19_external
